@@ -105,9 +105,13 @@ def SiteIndex.nearestF (ix : SiteIndex) (y : Q3) (sel : Nat → Bool) : Option N
 /-- Index of a site accepted by `sel` within distance² `r2` of fractional point `y` (periodic, exact). -/
 def SiteIndex.findSel (ix : SiteIndex) (y : Q3) (sel : Nat → Bool) (r2 : Rat) : Option Nat :=
   let exact (j : Nat) : Bool := withinPeriodic ix.cell.lat ix.gi (y.sub ix.cell.pos[j]!) r2
+  -- the float-guided candidate is only a hint: it is re-validated exactly (index range, `sel`, distance),
+  -- and whenever it is absent or fails, every site is scanned exactly
   match ix.nearestF y sel with
-  | none => none
-  | some j => if exact j then some j else (List.range ix.cell.n).find? fun k => sel k && exact k
+  | none => (List.range ix.cell.n).find? fun k => sel k && exact k
+  | some j =>
+    if decide (j < ix.cell.n) && sel j && exact j then some j
+    else (List.range ix.cell.n).find? fun k => sel k && exact k
 
 /-- Index of an atom of species `sp` within distance² `r2` of `y`. -/
 def SiteIndex.find (ix : SiteIndex) (y : Q3) (sp : Int) (r2 : Rat) : Option Nat :=
@@ -175,6 +179,13 @@ def convOpsOfHall (h : Nat) : Option (List HOp) :=
   | none => none
   | some e => (HallSymbol.new e.hallSymbol).bind HallSymbol.conventionalOps
 
+/-- Coset representatives of `ℤ³ / P ℤ³` as fractional translations of the new cell: the first `m`
+distinct values of `frac (P⁻¹ (i,j,k))`, `0 ≤ i,j,k < m`, in lexicographic order of `(i,j,k)`. -/
+def cosetReps (Pinv : QM3) (m : Nat) : List Q3 :=
+  let cands : List Q3 := (List.range m).flatMap fun (i : Nat) => (List.range m).flatMap fun (j : Nat) =>
+    (List.range m).map fun (k : Nat) => (Pinv.apply ⟨(i : Rat), (j : Rat), (k : Rat)⟩).frac
+  (cands.foldl (fun acc v => if acc.length < m && !(acc.contains v) then v :: acc else acc) []).reverse
+
 /-- The elements of the generating group that preserve the input lattice, expressed in the input
 cell: conjugation by the recorded re-description `(P, p)`, times the coset translations of ℤ³/Pℤ³. -/
 def expectedOps (t : TruthQ) : Option (List OpQ) :=
@@ -187,14 +198,7 @@ def expectedOps (t : TruthQ) : Option (List OpQ) :=
     let Pinv : QM3 := QM3.smul (1 / (dt : Rat)) (QM3.ofM3 P.adj)
     let m := dt.toNat
     -- coset representatives of ℤ³ / P ℤ³ as fractional translations of the new cell
-    let cosets : List Q3 := Id.run do
-      let mut acc : List Q3 := []
-      for i in [0:m] do
-        for j in [0:m] do
-          for k in [0:m] do
-            let v := (Pinv.apply ⟨i, j, k⟩).frac
-            if acc.length < m && !(acc.contains v) then acc := v :: acc
-      return acc.reverse
+    let cosets : List Q3 := cosetReps Pinv m
     let base := conv.filterMap fun o =>
       let num := (P.adj.mul o.rot).mul P
       if num.divisibleBy dt then
@@ -425,26 +429,46 @@ def checkC07orbits (cs : CaseQ) (d : DatasetQ) : List String :=
 
 /-! ### C09 (single-dataset clauses; twin comparison is done by the driver over two lines) -/
 
-def checkC09 (_cs : CaseQ) (d : DatasetQ) : List String :=
+def checkC09 (cs : CaseQ) (d : DatasetQ) : List String :=
   let f1 := if d.symprec > 0 then [] else ["C09: returned symprec is not positive"]
   let f2 := match d.angtol with
     | some a => if a > 0 then [] else ["C09: returned angle tolerance is not positive"]
     | none => []
-  f1 ++ f2
+  -- every generated case satisfies the premise (symmetric crystal, noise <= 5% symprec, symmetry gap >= 20 symprec),
+  -- so the first attempt must succeed and the returned tolerances are the requested ones
+  let f3 := if d.symprec == cs.symprec then [] else
+    [s!"C09: returned symprec {Wire.ratToString d.symprec} differs from the requested {Wire.ratToString cs.symprec}"]
+  let f4 := if d.angtol == cs.angtol then [] else ["C09: returned angle tolerance differs from the requested one"]
+  f1 ++ f2 ++ f3 ++ f4
 
 /-- Summary used to compare a noisy run with its undistorted twin. -/
 def summary (d : DatasetQ) : String :=
   s!"{d.number} {d.hallNumber} {d.ops.size} {d.orbits.toList}"
 
+/-- ITA number of a Hall number (none when out of range). -/
+def numberOfHall (h : Int) : Option Nat :=
+  if h < 1 then none else (hallTable[h.toNat - 1]?).map (·.number)
+
 def checkAll (cs : CaseQ) : List String :=
+  let truthNumber := numberOfHall cs.truth.hall
+  -- does the request (if any) name a Hall setting of the crystal's own type?
+  let requestMatches : Bool := match cs.setting with
+    | .hall h => numberOfHall h == truthNumber && truthNumber.isSome
+    | _ => true
   match cs.out with
   | .panic msg => [s!"C08: panic {msg}"]
   | .err name =>
-    -- C03/C10 require an answer on premise-satisfying inputs
+    -- C03/C10 require an answer on premise-satisfying inputs; a refusal is right for a non-matching request
     match cs.setting with
-    | .hall _ => [s!"C10: error {name} for a crystal of the requested type"]
+    | .hall _ => if requestMatches then [s!"C10: error {name} for a crystal of the requested type"] else []
     | _ => [s!"C03: error {name} on a crystal whose group is a tabulated setting"]
   | .ok d =>
-    checkC01 cs d ++ checkC02 cs d ++ checkC03 cs d ++ checkC05 cs d ++ checkC06 cs d ++ checkC07orbits cs d ++ checkC09 cs d
+    if !requestMatches then
+      [s!"C10: a dataset (number {d.number}, Hall {d.hallNumber}) was returned although the crystal's type differs from the requested Hall setting's type or the Hall number is out of range"]
+    else
+    let c10 := match cs.setting with
+      | .hall h => if d.hallNumber == h then [] else [s!"C10: Hall number {d.hallNumber} returned, {h} requested"]
+      | _ => []
+    c10 ++ checkC01 cs d ++ checkC02 cs d ++ checkC03 cs d ++ checkC05 cs d ++ checkC06 cs d ++ checkC07orbits cs d ++ checkC09 cs d
 
 end Moyo.Oracle
